@@ -113,3 +113,48 @@ Qed.
 
 Example C15_ex : sorted [1; 5; 9] /\ sorted [5; 9; 11; 12] /\ union_count [1; 5; 9] [5; 9; 11; 12] <= 16777216.
 Proof. split; [|split]; try (apply sortedb_sorted; reflexivity). vm_compute. discriminate. Qed.
+
+(** * triangle inequality and common-element monotonicity (from Proofs/MetricTriangle.v) *)
+From GV Require Import Proofs.MetricTriangle.
+Open Scope Z_scope.
+
+Lemma C15_triangle_l fuel A B C dAB dBC dAC :
+  sorted A -> sorted B -> sorted C ->
+  (length A + length B <= fuel)%nat -> (length B + length C <= fuel)%nat -> (length A + length C <= fuel)%nat ->
+  union_count A B <= 16777216 -> union_count B C <= 16777216 -> union_count A C <= 16777216 ->
+  jaccarddist fuel A B = Ok dAB -> jaccarddist fuel B C = Ok dBC -> jaccarddist fuel A C = Ok dAC ->
+  (B2R dAC <= B2R dAB + B2R dBC + bpow radix2 (-22))%R.
+Proof.
+  intros HA HB HC F1 F2 F3 U1 U2 U3 D1 D2 D3.
+  rewrite (dist_value fuel A B dAB HA HB F1 D1), (dist_value fuel B C dBC HB HC F2 D2),
+    (dist_value fuel A C dAC HA HC F3 D3).
+  now apply triangle_rounded.
+Qed.
+
+(** adding a k-mer absent from both sets: the exact ratio strictly decreases, the reported
+    binary32 value does not increase.  (Strict decrease of the binary32 value itself is explored by
+    the harness for |A u B| + 1 < 2^23, not proved.) *)
+Lemma C15_add_common_partial_l fuel x A B d d' :
+  sorted A -> sorted B -> ~ In x A -> ~ In x B -> A <> B ->
+  (length A + length B + 2 <= fuel)%nat -> union_count A B < 16777216 ->
+  jaccarddist fuel A B = Ok d ->
+  jaccarddist fuel (insert_sorted x A) (insert_sorted x B) = Ok d' ->
+  sorted (insert_sorted x A) /\ sorted (insert_sorted x B) /\
+  (forall y, In y (insert_sorted x A) <-> y = x \/ In y A) /\
+  (forall y, In y (insert_sorted x B) <-> y = x \/ In y B) /\
+  (IZR (symdiff_count (insert_sorted x A) (insert_sorted x B))
+     / IZR (union_count (insert_sorted x A) (insert_sorted x B))
+   < IZR (symdiff_count A B) / IZR (union_count A B))%R /\
+  (B2R d' <= B2R d)%R.
+Proof.
+  intros HA HB HxA HxB Hne Hf Hu Hd Hd'.
+  destruct (common_element_ratio_lt x A B HA HB HxA HxB Hne) as [SA [SB [IA [IB Hlt]]]].
+  repeat (split; [assumption|]).
+  assert (LA : length (insert_sorted x A) = S (length A)).
+  { clear. induction A as [|y t IH]; simpl; [reflexivity|]. destruct (x <? y); simpl; congruence. }
+  assert (LB : length (insert_sorted x B) = S (length B)).
+  { clear. induction B as [|y t IH]; simpl; [reflexivity|]. destruct (x <? y); simpl; congruence. }
+  rewrite (dist_value fuel A B d HA HB ltac:(lia) Hd).
+  rewrite (dist_value fuel _ _ d' SA SB ltac:(lia) Hd').
+  now apply common_element_rounded_le.
+Qed.
